@@ -750,7 +750,7 @@ hwloc__xml_import_object(hwloc_topology_t topology,
     tag = NULL;
     ret = state->global->find_child(state, &childstate, &tag);
     if (ret < 0)
-      goto error;
+      goto error_with_object; /* not inserted yet */
     if (!ret)
       break;
 
@@ -782,7 +782,7 @@ hwloc__xml_import_object(hwloc_topology_t topology,
     }
 
     if (ret < 0)
-      goto error;
+      goto error_with_object; /* not inserted yet */
 
     state->global->close_child(&childstate);
   }
